@@ -230,6 +230,9 @@ func (w *walker) step() {
 		return false
 	}
 	for _, j := range p.Jobs {
+		if tj, ok := trialByNameEarly(p, j.Name); ok && trialDone(tj) && j.Phase != "active" {
+			add(0.25, sim.Action{Op: "jobgone", Key: j.Name}) // a retained run object removed by something else (TTL, user)
+		}
 		if j.Phase == "active" {
 			add(4, sim.Action{Op: "jobdone", Key: j.Name, Ok: r.Intn(5) > 0})
 		}
@@ -360,6 +363,24 @@ func (w *walker) drain() *int {
 		}
 	}
 	return nil
+}
+
+func trialByNameEarly(p sim.Proj, n int) (sim.PTrial, bool) {
+	for _, t := range p.Trials {
+		if t.Name == n {
+			return t, true
+		}
+	}
+	return sim.PTrial{}, false
+}
+
+func trialDone(t sim.PTrial) bool {
+	for _, c := range t.Conds {
+		if (c.T == 2 || c.T == 4 || c.T == 5 || c.T == 6) && c.S == "True" {
+			return true
+		}
+	}
+	return false
 }
 
 func expCompleted(p sim.Proj) bool {
